@@ -30,6 +30,17 @@ PROPS = {
         not_decided='everything else C05 asks: which nodes an axis yields, name tests against expanded names (live graph), predicates (by running the real code: /r/*[1.5] selects the first child because a numeric predicate is truncated, not compared -- NOT decided by any check: the value of the predicate expression is internal to eval_predicate), operators on node-sets, string-values; `self::*` on an attribute node (principal node type depends on the axis, which eval_node_test is not given)',
         explanation='node tests of the evaluator: eval_node_test answers `*` with "the node is an element or an attribute (or namespace) node", text() with text / CDATA / entity-reference nodes, comment() and processing-instruction() by node type, node() always, and processing-instruction(\'t\') by node type and target, for every node',
     ),
+    'C03': dict(
+        standin_ops=['info.attr_value', 'info.build_print'],
+        verus_units=['c03_entity', 'c03_doctype'],
+        level='proof',
+        trusted_base=TRUSTED_VERUS,
+        assumptions=[A4, A8, 'the entity table (Context::entity) and the value list of an entity are assumed callees over the live document; of the values only "the radix of a character reference is 10 or 16" is assumed (what XmlEntityValue construction from the parser model produces); char_from_char10/16 and normalize_ws are verified in units/info_helpers.py and assumed here',
+                     'the parser model enums InternalSubset / DeclarationMarkup / DeclarationEntity are mirrored variant for variant (compared with parser/src/model.rs on every run); the constructors of the child items (XmlDeclarationAttList::node, XmlEntity::node, XmlNotation::node, XmlProcessingInstruction::node) are assumed callees, assumed not to panic',
+                     'termination is proved for the recursion on entity references only; the loops run over finite vectors'],
+        not_decided='everything else C03 states: totality of the nom grammar on arbitrary strings, recursion depth of the parser / information-set construction / Display on deeply nested documents, running time (backtracking in the content-model grammar, exponential entity expansion), the other construction functions. None of it is a contract on a function either verifier can load; the thorough tier only samples it with a bounded grid of hostile shapes (labelled bounded)',
+        explanation='two functions of information-set construction and attribute access cannot panic or recurse forever, whatever the parser produced: attr_value_from_name (entity expansion in attribute values: the recursion on entity references has a decreasing measure, a parameter-entity reference is an error) and XmlDocumentTypeDeclaration::node (every variant of the internal subset, including parameter-entity declarations and references, leads to a value or an error)',
+    ),
     'C12': dict(
         standin_ops=['dom.views_after_edits', 'dom.children_after_edits', 'dom.tree_atomic'],
         verus_units=['c13_tree', 'c12_idmap'],
@@ -169,12 +180,16 @@ PROPS = {
 
 NOT_APPLICABLE = {
     'C01': 'acceptance and infoset construction are ~80 nom-combinator productions plus Rc<RefCell> item construction; Verus cannot import nom or express its impl-FnMut combinators, Kani did not finish a 2-byte symbolic input in 15 min nor a concrete 9-byte document in 10 min; no contract within reach states "every well-formed document"',
-    'C03': 'totality of parse/print is a property of the recursive nom grammar, unimplemented! arms reachable only with a live document, recursion depth and running time; none is expressible as a contract on a function either verifier can load',
     'C08': 'spelling equivalence and precedence are properties of the nom expression grammar (relations between strings), outside both verifiers',
     'C17': 'the CLIs compose file I/O, both nom grammars, the evaluator, DOM mutation and the printer; nothing in them is a function a contract can isolate',
 }
 
 MANIFEST_TEXT = {
+    'C03': dict(
+        level_text='Proof (Verus, all entity tables / all parser outputs) for two functions only: attr_value_from_name terminates (decreasing measure on the chain of entity references) and has no reachable panic site; XmlDocumentTypeDeclaration::node has no reachable panic site for any internal subset. Totality of the grammar, recursion depth on nested input and running time are NOT decided; the thorough tier samples them with a bounded grid of hostile documents run in a child process (bounded, proves nothing).',
+        level_note='Trusted: Verus+Z3, extractor, the mirrored parser model enums (compared with the source each run), child constructors and the entity table as assumed callees. A thin slice of C03.',
+        technique='contract-based deductive verification (Verus termination measure and panic-site preconditions on the extracted real functions); bounded replay grid of hostile documents in the thorough tier',
+        design_ref='DESIGN.md §9'),
     'C05': dict(
         level_text='Proof (Verus, every node and node test) for eval_node_test only: the name test * selects element / attribute / namespace nodes and never text, comment or processing-instruction nodes; the node-type tests and processing-instruction(literal) select by node type (and target). Axes, name matching, predicates, operators over node-sets: not decided.',
         level_note='Trusted as C19; node type and node name are uninterpreted functions of the opaque node. A thin slice of C05.',
